@@ -9,6 +9,7 @@ after the matching free function."""
 import os
 import time
 from checks import common
+from checks import C02
 import vdriver
 
 PROP = "C18"
@@ -28,10 +29,11 @@ def own(key):
 
 def run(tier, seed, scale=1.0):
     t0 = time.time()
-    per = int((120000 if tier == "quick" else 7000000) * scale)
-    sp = common.spec("legacy", "legacy", seed, opts={"corpus": CORPUS})
+    per = int((80000 if tier == "quick" else 6000000) * scale)
+    sp = C02.private_spec("legacy", "legacy", seed, opts={"corpus": CORPUS})
     res = vdriver.explore(sp, per, chunk=max(100, min(2000, per // 128)), chunk_timeout=900,
                           stop_after_violations=100000)
+    C02.drop_private()
     calls = res.counters.get("legacy_calls", 0)
     return common.finish(PROP, tier, seed, "exploration", res, own, RULE, t0,
                          min_conclusive=1000 * scale,
